@@ -194,7 +194,7 @@ pub fn corr(run: &mut Run) {
                 cross-checked node by node against SimpleEvaluator. Non-trivial: at least one private input not owned by the observer."
         .to_owned();
     let mut rng = run.rng("views");
-    let n_prog = run.tier.scale(60, 500);
+    let n_prog = run.tier.scale(500, 4000);
     let max_tape = run.tier.scale(13, 18) as usize;
     let mut done = 0;
     let mut attempts = 0;
